@@ -1,7 +1,7 @@
 (* C09 - format produces one canonical layout and is idempotent; --check agrees.
    Statements only; proofs in Proofs/FormatProofs.v. *)
 From Coq Require Import String.
-From Verif Require Import Base.Str Base.Lines Base.Outcome Model.Patterns Model.ParseLine Model.Format Proofs.FormatProofs.
+From Verif Require Import Base.Str Base.Lines Base.Outcome Model.Patterns Model.ParseLine Model.Format Proofs.FormatProofs Proofs.FormatIdemProofs.
 From Verif Require Import Gen.Consts.
 From Verif Require Tie.Pin_standard_header Tie.Pin_lits_cmd_regex_format_processLine
   Tie.Pin_lits_cmd_regex_format_formatEndOfFile Tie.Pin_lits_cmd_regex_format_checkStandardHeader
@@ -38,3 +38,31 @@ Theorem C09_idempotent_refuted :
   exists x y z, fmt [] = Ok x /\ fmt x = Ok y /\ fmt y = Ok z /\ x <> y /\ y <> z.
 Proof. exact format_idempotent_refuted. Qed.
 Print Assumptions C09_idempotent_refuted.
+
+(* FORMATTING A FORMATTED LINE CHANGES NOTHING - the part that is proved.
+   Full statement: for every line, processLine applied to its own output (indentation stripped
+   again, as the formatter's parser does) prints the same line and moves the indent the same way.
+   Proved for every line that is NOT a definition / include / include-except directive; for those
+   three the patterns re-reading their own canonical print is shown per case by the format suite,
+   not proved (hence _partial). *)
+Theorem C09_line_idempotent_partial : forall line indent out next,
+  trim_left is_blank line = line -> not_a_file_directive line ->
+  process_line line indent = (Some out, next) ->
+  process_line (trim_left is_blank out) indent = (Some out, next).
+Proof. exact process_line_idempotent_partial. Qed.
+Print Assumptions C09_line_idempotent_partial.
+
+(* ... and for the lines of a file: laying out the laid-out lines gives the same lines, for every
+   starting indent (error lines included: an end marker with no open block prints an empty line) *)
+Theorem C09_lines_idempotent_partial : forall ls indent,
+  Forall (fun l => trim_left is_blank l = l /\ not_a_file_directive l) ls ->
+  process_lines (map (trim_left is_blank) (process_lines ls indent)) indent = process_lines ls indent.
+Proof. intros ls indent. now apply process_lines_idempotent_partial. Qed.
+Print Assumptions C09_lines_idempotent_partial.
+
+Theorem C09_lines_idempotent_example :
+  let ls := [$"##!+ i"; $"##!^ \b"; $"##!> assemble"; $"a|b"; $"##!=>"; $"##!> cmdline unix"; $"ls@"; $"##!<"; $"##! note"; $"##!<"; $""] in
+  Forall (fun l => trim_left is_blank l = l /\ not_a_file_directive l) ls /\
+  process_lines ls 0 = [$"##!+ i"; $"##!^ \b"; $"##!> assemble"; $"  a|b"; $"  ##!=>"; $"  ##!> cmdline unix"; $"    ls@"; $"  ##!<"; $"  ##! note"; $"##!<"; $""].
+Proof. exact layout_idempotent_example. Qed.
+Print Assumptions C09_lines_idempotent_example.
